@@ -53,7 +53,8 @@ def _md(rng, p=0.5, hyper=False):
         return {}
     pool = ["a", "b", "weighted"] if hyper else ["a", "b"]
     keys = rng.sample(pool, rng.randint(1, 2))
-    return {k: rng.choice(["0", "1", "1", "2"]) for k in keys}
+    # "None" stands for the value None: an attribute that is present and holds None is not an absent attribute
+    return {k: rng.choice(["0", "1", "1", "2", "0", "1", "1", "2", "None"]) for k in keys}
 
 
 def py_behaviour(kind, weighted, n, length, rng, xs=None):
@@ -125,6 +126,16 @@ def py_behaviour(kind, weighted, n, length, rng, xs=None):
                 it = {"k": key(), "w": 0, "bad": ""}
                 it.update(mdarg())
                 its.append(it)
+            if rng.random() < 0.3:
+                # the same entry twice in ONE batch, followed by at least one more entry (another time / layer when there is one)
+                its.insert(rng.randint(1, len(its)), dict(its[0], k=dict(its[0]["k"])))
+                last = {"k": key(), "w": 0, "bad": ""}
+                if kind in ("temp", "mux"):
+                    others = [x for x in xs if x != its[0]["k"]["x"]]
+                    if others:
+                        last["k"] = dict(last["k"], x=rng.choice(others))
+                last.update(mdarg())
+                its.append(last)
             if weighted and rng.random() < 0.6:
                 for it in its:
                     it["w"] = rng.randint(1, 3)
@@ -142,9 +153,9 @@ def py_behaviour(kind, weighted, n, length, rng, xs=None):
             its = [dict({"n": x}, **mdarg()) for x in rng.sample(u, rng.randint(1, 2))]
             o = {"op": "add_nodes", "items": its}
         elif r < 0.83:
-            o = {"op": "set_attr_node", "n": rng.choice(u), "f": rng.choice(["a", "b"]), "v": rng.choice(["0", "1", "2"])}
+            o = {"op": "set_attr_node", "n": rng.choice(u), "f": rng.choice(["a", "b"]), "v": rng.choice(["0", "1", "2", "None"])}
         elif r < 0.87:
-            o = {"op": "set_attr_edge", "k": key(), "f": rng.choice(["a", "b"]), "v": rng.choice(["0", "1", "2"])}
+            o = {"op": "set_attr_edge", "k": key(), "f": rng.choice(["a", "b"]), "v": rng.choice(["0", "1", "2", "None"])}
         elif r < 0.89:
             o = {"op": "del_attr_node", "n": rng.choice(u), "f": rng.choice(["a", "b"])}
         elif r < 0.91:
